@@ -17,8 +17,12 @@ def sh(cmd, **kw):
 def main():
     kf = json.load(open(os.path.join(VERIF, "known_findings.json")))
     out = {"at": time.strftime("%Y-%m-%d %H:%M:%S"), "rows": []}
+    only = sys.argv[1:]  # commits to re-run; the rows of all others are kept from the last run
+    last = os.path.join(VERIF, "selftest", "revert_fixes_last.json")
+    if only and os.path.exists(last):
+        out["rows"] = [r for r in json.load(open(last))["rows"] if r["commit"] not in only]
     for e in kf["entries"]:
-        if e.get("status") != "fixed":
+        if e.get("status") != "fixed" or (only and e["commit"] not in only):
             continue
         wt = "/tmp/revert_" + e["commit"]
         sh(["git", "-C", "/repo", "worktree", "remove", "--force", wt])
